@@ -1671,6 +1671,40 @@ func c05r11(rc *core.RC) {
 				}
 				return true
 			})
+			// the nested decoders skip white space in front of a value: the text must not begin with any
+			lead := false
+			ast.Inspect(fd.Body, func(x ast.Node) bool {
+				ifs, isIf := x.(*ast.IfStmt)
+				if !isIf || ifs.Pos() > call.Pos() {
+					return true
+				}
+				tests := false
+				ast.Inspect(ifs.Cond, func(y ast.Node) bool {
+					ix, isIx := y.(*ast.IndexExpr)
+					if !isIx {
+						return true
+					}
+					if o := core.ObjOf(info, ix.X); o == nil || o.Name() != "isWhiteSpace" {
+						return true
+					}
+					if in, isIn := core.Unparen(ix.Index).(*ast.IndexExpr); isIn {
+						if v, isC := core.ConstInt(info, in.Index); isC && v == 0 {
+							tests = true
+						}
+					}
+					return true
+				})
+				if !tests {
+					return true
+				}
+				for _, st := range ifs.Body.List {
+					if r, isRet := st.(*ast.ReturnStmt); isRet && core.ReturnIsError(info, r) {
+						lead = true
+					}
+				}
+				return true
+			})
+			rc.Check(lead, fmt.Sprintf("%s/sub-text-decode#%d first-byte-not-white-space", fn, k), call.Pos(), "before the nested decode the first byte of the text is tested against the white space table, with an error exit: the nested decoders skip leading white space, so {\"A\":\" 1\"} would store 1 into a ,string int and \" 1\" would be an integer map key")
 			rc.Check(found, key, call.Pos(), "the end cursor of the nested decode (%s) is compared with the length of the text it was run on, and a difference is an error (the byte under the cursor is no substitute: the payload \"12\\u0000.5\" holds a NUL at which the integer scanner stops, so {\"a\":\"12\\u0000.5\"} would store 12 into a ,string int)", end.Name())
 			return true
 		})
